@@ -1026,10 +1026,14 @@ Lemma initialize_ghost : forall ps st rid ring K st' starts,
     (forall v, v < size st' -> rid' v < K + length ps) /\
     (forall j, K + length ps <= j -> ring' j = []) /\
     map rid' starts = seq K (length ps) /\ Forall (fun f => f < size st') starts /\
-    length starts = length ps.
+    length starts = length ps /\
+    (forall j, j < K -> ring' j = ring j) /\
+    (forall j, j < length ps -> length (ring' (K + j)) = length (nth j ps [])).
 Proof.
   induction ps as [|p t IH]; intros st rid ring K st' starts G Hr Hl H; cbn [initialize] in H.
-  - inversion H; subst. split; [lia|]. exists rid, ring. rewrite Nat.add_0_r. cbn. auto 10.
+  - inversion H; subst. split; [lia|]. exists rid, ring. rewrite Nat.add_0_r. cbn.
+    split; [exact G|]. split; [auto|]. split; [exact Hl|]. split; [exact Hr|]. split; [reflexivity|].
+    split; [constructor|]. split; [reflexivity|]. split; [auto|]. intros j Hj; lia.
   - unfold bind in H. destruct (init_poly st p) as [[st1 first]|] eqn:E; [|discriminate].
     destruct (initialize st1 t) as [[st2 starts2]|] eqn:E2; [|discriminate].
     inversion H; subst st' starts; clear H.
@@ -1037,16 +1041,20 @@ Proof.
     { intros v Hv. specialize (Hl v Hv). lia. }
     set (rid1 := fun v => if size st <=? v then K else rid v) in *.
     set (ring1 := fun j => if j =? K then seq (size st) (length p) else ring j) in *.
-    destruct (IH st1 rid1 ring1 (S K) st2 starts2 G1) with (3 := E2) as (Hle & rid2 & ring2 & G2 & Hold & Hlt & Hemp & Hmap & Hall & Hlen).
+    destruct (IH st1 rid1 ring1 (S K) st2 starts2 G1) with (3 := E2) as (Hle & rid2 & ring2 & G2 & Hold & Hlt & Hemp & Hmap & Hall & Hlen & Hstab & Hrl).
     { intros j Hj. unfold ring1. destruct (Nat.eqb_spec j K); [lia|]. apply Hr. lia. }
     { intros v Hv. unfold rid1. destruct (Nat.leb_spec (size st) v); [lia|]. specialize (Hl v ltac:(lia)). lia. }
-    split; [lia|]. exists rid2, ring2. split; [exact G2|]. cbn [length]. split; [|split; [|split; [|split; [|split]]]].
+    split; [lia|]. exists rid2, ring2. split; [exact G2|]. cbn [length]. split; [|split; [|split; [|split; [|split; [|split; [|split]]]]]].
     + intros v Hv. rewrite Hold by lia. unfold rid1. destruct (Nat.leb_spec (size st) v); [lia|reflexivity].
     + intros v Hv. specialize (Hlt v Hv). lia.
     + intros j Hj. apply Hemp. lia.
     + cbn [map seq]. f_equal; [|exact Hmap]. rewrite Hold by lia. unfold rid1. rewrite Hf, Nat.leb_refl. reflexivity.
     + constructor; [lia|exact Hall].
     + cbn [length]. lia.
+    + intros j Hj. rewrite Hstab by lia. unfold ring1. destruct (Nat.eqb_spec j K); [lia|reflexivity].
+    + intros j Hj. destruct j as [|j'].
+      * rewrite Nat.add_0_r, Hstab by lia. unfold ring1. rewrite Nat.eqb_refl, seq_length. reflexivity.
+      * replace (K + S j') with (S K + j') by lia. cbn [nth]. apply Hrl. lia.
 Qed.
 
 Lemma reset_ghost polys : GInv (reset polys) (fun _ => 0) (fun _ => []).
@@ -1069,7 +1077,60 @@ Proof.
   rewrite IH. apply perm_swap.
 Qed.
 
-Record BookF (st : St) (rid : nat -> nat) (ring : nat -> list nat) (F H O S : list nat) : Prop := mkBook {
+(* ring count (for the closed triangle-count formula).  `big` = every input contour has at least
+   two vertices; K = number of input contours *)
+Fixpoint cntne (ring : nat -> list nat) (K : nat) : nat :=
+  match K with 0 => 0 | S k => cntne ring k + match ring k with [] => 0 | _ => 1 end end.
+Fixpoint sumlen (ring : nat -> list nat) (K : nat) : nat :=
+  match K with 0 => 0 | S k => sumlen ring k + length (ring k) end.
+
+Record RC (big : Prop) (K : nat) (st : St) (rid : nat -> nat) (ring : nat -> list nat) : Prop := mkRC {
+  RC_lab : forall v, v < size st -> rid v < K;
+  RC_emp : forall k, K <= k -> ring k = [];
+  RC_two : big -> forall k, ring k = [] \/ 2 <= length (ring k);
+  RC_cnt : big -> cntne ring K + njoin st = K
+}.
+
+Lemma cntne_status ring ring' K :
+  (forall k, k < K -> (ring' k = [] <-> ring k = [])) -> cntne ring' K = cntne ring K.
+Proof.
+  induction K as [|k IH]; intros H; [reflexivity|]. cbn [cntne]. rewrite IH by (intros j Hj; apply H; lia).
+  specialize (H k (le_n _)). destruct (ring k), (ring' k); try reflexivity.
+  - destruct H as [_ H]. specialize (H eq_refl). discriminate.
+  - destruct H as [H _]. specialize (H eq_refl). discriminate.
+Qed.
+Lemma cntne_drop ring ring' K k0 :
+  k0 < K -> ring k0 <> [] -> ring' k0 = [] ->
+  (forall k, k < K -> k <> k0 -> (ring' k = [] <-> ring k = [])) -> S (cntne ring' K) = cntne ring K.
+Proof.
+  induction K as [|k IH]; intros Hk Hne He H; [lia|]. cbn [cntne].
+  destruct (Nat.eq_dec k k0) as [->|Hkk].
+  - rewrite (cntne_status ring ring' k0) by (intros j Hj; apply H; lia).
+    rewrite He. destruct (ring k0); [congruence|]. lia.
+  - rewrite <- (IH ltac:(lia) Hne He) by (intros j Hj Hjk; apply H; [lia|exact Hjk]).
+    specialize (H k (le_n _) Hkk). destruct (ring k), (ring' k); try lia.
+    + destruct H as [_ H]. specialize (H eq_refl). discriminate.
+    + destruct H as [H _]. specialize (H eq_refl). discriminate.
+Qed.
+
+Lemma RC_shrink big K st rid ring st' ring' :
+  RC big K st rid ring -> size st' = size st -> njoin st' = njoin st ->
+  (forall k, incl (ring' k) (ring k)) -> (forall k, 2 <= length (ring k) -> 2 <= length (ring' k)) ->
+  RC big K st' rid ring'.
+Proof.
+  intros [A B C D] Hs Hj Hi H2.
+  assert (Hst : big -> forall k, ring' k = [] <-> ring k = []).
+  { intros Hb k. split.
+    - intros E. destruct (C Hb k) as [E0|E2]; [exact E0|]. specialize (H2 k E2). rewrite E in H2. cbn in H2. lia.
+    - intros E. specialize (Hi k). rewrite E in Hi. destruct (ring' k) as [|x t]; [reflexivity|]. destruct (Hi x (or_introl eq_refl)). }
+  constructor.
+  - intros v Hv. apply A. lia.
+  - intros k Hk. specialize (Hi k). rewrite (B k Hk) in Hi. destruct (ring' k) as [|x t]; [reflexivity|]. destruct (Hi x (or_introl eq_refl)).
+  - intros Hb k. destruct (C Hb k) as [E0|E2]; [left; apply (Hst Hb k); exact E0|right; apply H2; exact E2].
+  - intros Hb. rewrite Hj, (cntne_status ring ring' K) by (intros k _; apply (Hst Hb k)). apply D. exact Hb.
+Qed.
+
+Record BookF (big : Prop) (K : nat) (st : St) (rid : nat -> nat) (ring : nat -> list nat) (F H O S : list nat) : Prop := mkBook {
   B_first : forall f, In f F -> f < size st /\ ~ In (rid f) (map rid H) /\ ~ In (rid f) (map rid S);
   B_fnodup : NoDup (map rid F);
   B_hole : forall h, In h H -> h < size st /\ live st h = true;
@@ -1077,11 +1138,14 @@ Record BookF (st : St) (rid : nat -> nat) (ring : nat -> list nat) (F H O S : li
   B_disj : forall h x, In h H -> In x S -> rid h <> rid x;
   B_outer : forall o, In o O -> o < size st /\ In (rid o) (map rid S);
   B_simple : forall x, In x S -> x < size st;
-  B_cover : forall k, 3 <= length (ring k) -> In k (map rid F) \/ In k (map rid H) \/ In k (map rid S)
+  B_cover : forall k, 3 <= length (ring k) -> In k (map rid F) \/ In k (map rid H) \/ In k (map rid S);
+  B_rc : RC big K st rid ring
 }.
 
 Section FindStarts.
 Variable orc : Oracle.
+Variable big : Prop.
+Variable K : nat.
 
 Lemma fold_start_spec st first vis :
   let r := fold_left (fun su v => if o_newstart orc st first (fst su) (snd su) v then (v, true) else su)
@@ -1130,14 +1194,14 @@ Proof.
 Qed.
 
 Lemma findStarts_book fuel st rid ring (G : GInv st rid ring) : forall F H O S H' O' S',
-  BookF st rid ring F H O S ->
+  BookF big K st rid ring F H O S ->
   findStarts orc fuel st F H O S = Some (H', O', S') ->
-  BookF st rid ring [] H' O' S' /\ length H' <= length H + length F.
+  BookF big K st rid ring [] H' O' S' /\ length H' <= length H + length F.
 Proof.
   induction F as [|f t IH]; intros H O S H' O' S' B E; cbn [findStarts] in E.
   - inversion E; subst. split; [exact B|lia].
   - unfold bind in E. destruct (findStart orc fuel st f) as [r|] eqn:Ef; [|discriminate].
-    destruct B as [Bf Bfn Bh Bn Bd Bo Bs Bc].
+    destruct B as [Bf Bfn Bh Bn Bd Bo Bs Bc Brc].
     destruct (Bf f (or_introl eq_refl)) as (Hf & HfH & HfS).
     pose proof (findStart_spec fuel st rid ring f r G Hf Ef) as Hr.
     cbn [map] in Bfn. apply NoDup_cons_iff in Bfn. destruct Bfn as [Hft Bfn'].
@@ -1192,6 +1256,8 @@ End FindStarts.
 
 Section Keyholes.
 Variable orc : Oracle.
+Variable big : Prop.
+Variable K : nat.
 
 Lemma fold_left_pred {A B} (f : A -> B -> A) (P : A -> Prop) (Q : B -> Prop) :
   (forall a v, P a -> Q v -> P (f a v)) ->
@@ -1223,13 +1289,13 @@ Lemma map_rid_ext (rid rid' : nat -> nat) l : (forall x, In x l -> rid' x = rid 
 Proof. intros H. apply map_ext_in. exact H. Qed.
 
 Lemma cutKeyhole_ring fuel st rid ring H O S h st' lost :
-  GInv st rid ring -> BookF st rid ring [] (h :: H) O S ->
+  GInv st rid ring -> BookF big K st rid ring [] (h :: H) O S ->
   cutKeyhole orc fuel st O h = Some (st', lost) ->
   nbad st' = nbad st /\ njoin st' <= njoin st + 1 /\ njoin st <= njoin st' /\
   size st' = size st + 2 * (njoin st' - njoin st) /\
-  exists rid' ring', GInv st' rid' ring' /\ BookF st' rid' ring' [] H O (if lost then S ++ [h] else S).
+  exists rid' ring', GInv st' rid' ring' /\ BookF big K st' rid' ring' [] H O (if lost then S ++ [h] else S).
 Proof.
-  intros G B. destruct B as [_ _ Bh Bn Bd Bo Bs Bc].
+  intros G B. destruct B as [_ _ Bh Bn Bd Bo Bs Bc Brc].
   cbn [map] in Bn. apply NoDup_cons_iff in Bn. destruct Bn as [Hh_H Bn'].
   destruct (Bh h (or_introl eq_refl)) as [Hh Hlh].
   set (Q := fun v => v < size st /\ live st v = true /\ In (rid v) (map rid S)).
@@ -1257,7 +1323,8 @@ Proof.
       - intros k Hk. destruct (Bc k Hk) as [[]|[[<-|Hin]|Hin]].
         + right. right. rewrite map_app, in_app_iff. right. left. reflexivity.
         + right. left. exact Hin.
-        + right. right. rewrite map_app, in_app_iff. left. exact Hin. }
+        + right. right. rewrite map_app, in_app_iff. left. exact Hin.
+      - exact Brc. }
   destruct (if o_bridge0 orc st h edge then getR st edge else Some edge) as [c0|] eqn:E0; [|discriminate].
   assert (Hc0 : Q c0).
   { destruct Hconn as (A & B & C). destruct (o_bridge0 orc st h edge).
@@ -1313,14 +1380,33 @@ Proof.
     + congruence.
     + right. left. rewrite (map_rid_ext rid rid' H RH). exact Hin.
     + right. right. exact Hin.
+  - destruct Brc as [RA RB RC2 RD].
+    assert (Hkh : rid h < K) by (apply RA; exact Hh). assert (Hkc : rid c1 < K) by (apply RA; exact Hc1b).
+    pose proof (GI_cov _ _ _ G h Hh Hlh) as Hhin. pose proof (GI_cov _ _ _ G c1 Hc1b Hc1l) as Hcin.
+    constructor.
+    + intros v Hv. destruct (Nat.lt_ge_cases v (size st)) as [Hlt|Hge].
+      * rewrite Ro by exact Hlt. destruct (rid v =? rid h); [exact Hkc|apply RA; exact Hlt].
+      * rewrite Rn by exact Hge. exact Hkc.
+    + intros k Hkk. rewrite Rfr by lia. apply RB. exact Hkk.
+    + intros Hb k. destruct (Nat.eq_dec k (rid h)) as [->|Hk1]; [left; exact Rks|].
+      destruct (Nat.eq_dec k (rid c1)) as [->|Hk2]; [right; exact Rkc|]. rewrite Rfr by assumption. apply RC2. exact Hb.
+    + intros Hb. rewrite A2.
+      assert (Hd : Datatypes.S (cntne ring' K) = cntne ring K).
+      { apply (cntne_drop ring ring' K (rid h) Hkh).
+        - intros E. rewrite E in Hhin. destruct Hhin.
+        - exact Rks.
+        - intros k Hkk Hkne. destruct (Nat.eq_dec k (rid c1)) as [->|Hk2].
+          + split; [intros E; rewrite E in Rkc; cbn in Rkc; lia|intros E; rewrite E in Hcin; destruct Hcin].
+          + rewrite Rfr by assumption. tauto. }
+      specialize (RD Hb). lia.
 Qed.
 
 Lemma cutKeyholes_ring fuel O : forall H st rid ring S st' S',
-  GInv st rid ring -> BookF st rid ring [] H O S ->
+  GInv st rid ring -> BookF big K st rid ring [] H O S ->
   cutKeyholes orc fuel st O H S = Some (st', S') ->
   nbad st' = nbad st /\ njoin st' <= njoin st + length H /\ njoin st <= njoin st' /\
   size st' = size st + 2 * (njoin st' - njoin st) /\
-  exists rid' ring', GInv st' rid' ring' /\ BookF st' rid' ring' [] [] O S'.
+  exists rid' ring', GInv st' rid' ring' /\ BookF big K st' rid' ring' [] [] O S'.
 Proof.
   induction H as [|h t IH]; intros st rid ring S st' S' G B E; cbn [cutKeyholes] in E.
   - inversion E; subst. split; [reflexivity|]. split; [lia|]. split; [lia|]. split; [lia|]. exists rid, ring. auto.
@@ -1367,8 +1453,128 @@ Proof.
   apply (Cyc_small st rid (rid v) (ring (rid v)) v (GI_inv _ _ _ G) (GI_cyc _ _ _ G _) (GI_cov _ _ _ G v ltac:(lia) Hl) (Hsm _)).
 Qed.
 
-Theorem triangulate_ghost fuel polys st :
-  triangulate orc fuel polys = Some st -> nbad st = 0 /\ rings_closed st = true.
+(* ring bookkeeping of the state Initialize returns *)
+Lemma init_ghost_full polys st1 starts :
+  initialize (reset polys) polys = Some (st1, starts) ->
+  let big := Forall (fun p : list Z => 2 <= length p) polys in
+  let K := length polys in
+  exists rid1 ring1, GInv st1 rid1 ring1 /\ RC big K st1 rid1 ring1 /\
+    map rid1 starts = seq 0 K /\ Forall (fun f => f < size st1) starts /\ length starts = K.
+Proof.
+  intros Ei. cbv zeta.
+  pose proof (initialize_good polys [] _ _ _ (reset_good polys) Ei) as IG. cbn [app] in IG.
+  destruct (initialize_ghost polys (reset polys) (fun _ => 0) (fun _ => []) 0 st1 starts (reset_ghost polys))
+    with (3 := Ei) as (_ & rid1 & ring1 & G1 & _ & Hlt & Hemp & Hmap & Hall & Hlens & _ & Hrl).
+  { reflexivity. } { cbn. intros; lia. }
+  exists rid1, ring1. split; [exact G1|]. split; [|auto].
+  assert (Hne : Forall (fun p : list Z => 2 <= length p) polys -> forall k, k < length polys -> 2 <= length (ring1 k)).
+  { intros Hb k Hk. specialize (Hrl k Hk). cbn [Nat.add] in Hrl. rewrite Hrl.
+    rewrite Forall_forall in Hb. apply Hb. apply nth_In. exact Hk. }
+  constructor.
+  - exact Hlt.
+  - exact Hemp.
+  - intros Hb k. destruct (Nat.lt_ge_cases k (length polys)) as [Hk|Hk]; [right; apply Hne; assumption|left; apply Hemp; exact Hk].
+  - intros Hb. rewrite (IG_njoin _ _ IG), Nat.add_0_r.
+    assert (Hc : forall n, n <= length polys -> cntne ring1 n = n).
+    { induction n as [|n IHn]; intros Hn; [reflexivity|]. cbn [cntne]. rewrite IHn by lia.
+      specialize (Hne Hb n ltac:(lia)). destruct (ring1 n); [cbn in Hne; lia|lia]. }
+    apply Hc. lia.
+Qed.
+
+Lemma sweep_book fuel polys st1 starts rid1 ring1 st2 :
+  let big := Forall (fun p : list Z => 2 <= length p) polys in
+  let K := length polys in
+  GInv st1 rid1 ring1 -> RC big K st1 rid1 ring1 ->
+  map rid1 starts = seq 0 K -> Forall (fun f => f < size st1) starts ->
+  sweep orc fuel st1 (seq 0 (length (poly st1))) = Some st2 ->
+  nbad st2 = nbad st1 /\ njoin st2 = njoin st1 /\ size st2 = size st1 /\
+  exists ring2, GInv st2 rid1 ring2 /\ BookF big K st2 rid1 ring2 starts [] [] [].
+Proof.
+  cbv zeta. intros G1 R1 Hmap Hall E2.
+  destruct (sweep_ring orc fuel _ st1 rid1 ring1 st2 G1 E2) as (A1 & A2 & A3 & ring2 & G2 & Hincl & Htwo).
+  split; [exact A1|]. split; [exact A2|]. split; [exact A3|]. exists ring2. split; [exact G2|].
+  constructor.
+  - intros f Hf. rewrite Forall_forall in Hall. split; [rewrite A3; apply Hall; exact Hf|]. cbn. auto.
+  - rewrite Hmap. apply seq_NoDup.
+  - intros h [].
+  - constructor.
+  - intros h x [].
+  - intros o [].
+  - intros x [].
+  - intros k Hk. left. rewrite Hmap. apply in_seq. cbn [Nat.add].
+    destruct (Nat.lt_ge_cases k (length polys)) as [|Hge]; [lia|].
+    exfalso. pose proof (RC_emp _ _ _ _ _ R1 k Hge) as Hemp. specialize (Hincl k). rewrite Hemp in Hincl.
+    destruct (ring2 k) as [|x t]; [cbn in Hk; lia|]. destruct (Hincl x (or_introl eq_refl)).
+  - apply (RC_shrink _ _ st1 rid1 ring1 st2 ring2 R1 A3 A2 Hincl Htwo).
+Qed.
+
+Lemma triangulatePolys_ring_rc big K fuel : forall Sm st rid ring st',
+  GInv st rid ring -> RC big K st rid ring -> (forall x, In x Sm -> x < size st) ->
+  (forall k, 3 <= length (ring k) -> In k (map rid Sm)) ->
+  triangulatePolys orc fuel st Sm = Some st' ->
+  nbad st' = nbad st /\ njoin st' = njoin st /\ size st' = size st /\
+  exists ring', GInv st' rid ring' /\ RC big K st' rid ring' /\ forall k, length (ring' k) <= 2.
+Proof.
+  induction Sm as [|s t IH]; intros st rid ring st' G R Hb Hc E; cbn [triangulatePolys] in E.
+  - inversion E; subst. split; [reflexivity|]. split; [reflexivity|]. split; [reflexivity|].
+    exists ring. split; [exact G|]. split; [exact R|]. intros k. destruct (Nat.le_gt_cases (length (ring k)) 2) as [|Hk]; [assumption|].
+    destruct (Hc k Hk).
+  - unfold bind in E. destruct (triangulatePoly orc fuel st s) as [st1|] eqn:E1; [|discriminate].
+    destruct (triangulatePoly_ring orc fuel st rid ring s st1 G (Hb s (or_introl eq_refl)) E1)
+      as (A1 & A2 & A3 & ring1 & G1 & F1 & L1 & I1 & T1).
+    assert (R1 : RC big K st1 rid ring1).
+    { apply (RC_shrink _ _ st rid ring st1 ring1 R A3 A2).
+      - intros k. destruct (Nat.eq_dec k (rid s)) as [->|Hk]; [exact I1|rewrite F1 by exact Hk; apply incl_refl].
+      - intros k Hk. destruct (Nat.eq_dec k (rid s)) as [->|Hk']; [apply T1; exact Hk|rewrite F1 by exact Hk'; exact Hk]. }
+    destruct (IH st1 rid ring1 st' G1 R1) with (3 := E) as (B1 & B2 & B3 & ring2 & G2 & R2 & L2).
+    + intros x Hx. rewrite A3. apply Hb. right. exact Hx.
+    + intros k Hk. destruct (Nat.eq_dec k (rid s)) as [->|Hks]; [lia|].
+      rewrite (F1 k Hks) in Hk. destruct (Hc k Hk) as [Eq|Hin]; [congruence|exact Hin].
+    + split; [congruence|]. split; [congruence|]. split; [congruence|]. exists ring2. auto.
+Qed.
+
+(* the live records are exactly the members of the rings *)
+Lemma NoDup_rings st rid ring (G : GInv st rid ring) : forall n,
+  NoDup (concat (map ring (seq 0 n))) /\ forall v, In v (concat (map ring (seq 0 n))) -> rid v < n.
+Proof.
+  induction n as [|n [IH1 IH2]]; [split; [constructor|intros v []]|].
+  rewrite seq_S, map_app, concat_app. cbn [map concat Nat.add]. rewrite app_nil_r. split.
+  - apply NoDup_app_intro; [exact IH1|apply (GI_cyc _ _ _ G n)|].
+    intros v H1 H2. specialize (IH2 v H1). destruct (GInv_in_live _ _ _ _ _ G H2) as (_ & B & _). lia.
+  - intros v Hv. apply in_app_or in Hv. destruct Hv as [Hv|Hv]; [specialize (IH2 v Hv); lia|].
+    destruct (GInv_in_live _ _ _ _ _ G Hv) as (_ & B & _). lia.
+Qed.
+Lemma length_concat_rings ring : forall n, length (concat (map ring (seq 0 n))) = sumlen ring n.
+Proof.
+  induction n as [|n IH]; [reflexivity|]. rewrite seq_S, map_app, concat_app, app_length, IH.
+  cbn [map concat Nat.add sumlen]. rewrite app_nil_r. reflexivity.
+Qed.
+Lemma nlive_rings st rid ring K :
+  GInv st rid ring -> (forall v, v < size st -> rid v < K) -> nlive st = sumlen ring K.
+Proof.
+  intros G Hlab. unfold nlive. rewrite <- length_concat_rings.
+  apply Permutation_length. apply NoDup_Permutation.
+  - apply NoDup_filter, seq_NoDup.
+  - apply (NoDup_rings st rid ring G K).
+  - intros v. rewrite filter_In, in_seq. split.
+    + intros [Hv Hl]. assert (Hv' : v < size st) by lia.
+      pose proof (GI_cov _ _ _ G v Hv' Hl) as Hin. specialize (Hlab v Hv').
+      apply in_concat. exists (ring (rid v)). split; [|exact Hin]. apply in_map. apply in_seq. lia.
+    + intros Hin. apply in_concat in Hin. destruct Hin as (l & Hl & Hv). apply in_map_iff in Hl. destruct Hl as (k & <- & _).
+      destruct (GInv_in_live _ _ _ _ _ G Hv) as (A & _ & C). split; [lia|exact C].
+Qed.
+Lemma sumlen_two ring K :
+  (forall k, ring k = [] \/ 2 <= length (ring k)) -> (forall k, length (ring k) <= 2) -> sumlen ring K = 2 * cntne ring K.
+Proof.
+  intros H1 H2. induction K as [|k IH]; [reflexivity|]. cbn [sumlen cntne]. rewrite IH.
+  specialize (H2 k). destruct (H1 k) as [E|E]; [rewrite E; cbn; lia|]. destruct (ring k); cbn [length] in *; lia.
+Qed.
+
+Theorem triangulate_ghost_count fuel polys st :
+  triangulate orc fuel polys = Some st ->
+  nbad st = 0 /\ rings_closed st = true /\
+  (Forall (fun p : list Z => 2 <= length p) polys ->
+     njoin st <= length polys /\ nlive st = 2 * (length polys - njoin st)).
 Proof.
   unfold triangulate, bind.
   destruct (initialize (reset polys) polys) as [[st1 starts]|] eqn:Ei; [|discriminate].
@@ -1377,31 +1583,25 @@ Proof.
   destruct (cutKeyholes orc fuel st2 outers holes simples) as [[st3 simples']|] eqn:E3; [|discriminate].
   intros E4.
   destruct (initialize_good_state polys st1 starts Ei) as (_ & Hb1 & _).
-  destruct (initialize_ghost polys (reset polys) (fun _ => 0) (fun _ => []) 0 st1 starts (reset_ghost polys))
-    with (3 := Ei) as (_ & rid1 & ring1 & G1 & _ & Hlt & Hemp & Hmap & Hall & _).
-  { reflexivity. } { cbn. intros; lia. }
-  destruct (sweep_ring orc fuel _ st1 rid1 ring1 st2 G1 E2) as (A1 & A2 & A3 & ring2 & G2 & Hincl & _).
-  assert (B0 : BookF st2 rid1 ring2 starts [] [] []).
-  { constructor.
-    - intros f Hf. rewrite Forall_forall in Hall. split; [rewrite A3; apply Hall; exact Hf|]. cbn. auto.
-    - rewrite Hmap. apply seq_NoDup.
-    - intros h [].
-    - constructor.
-    - intros h x [].
-    - intros o [].
-    - intros x [].
-    - intros k Hk. left. rewrite Hmap. apply in_seq. cbn [Nat.add].
-      destruct (Nat.lt_ge_cases k (length polys)) as [|Hge]; [lia|].
-      exfalso. specialize (Hemp k ltac:(lia)). specialize (Hincl k). rewrite Hemp in Hincl.
-      destruct (ring2 k) as [|x t]; [cbn in Hk; lia|]. destruct (Hincl x (or_introl eq_refl)). }
-  destruct (findStarts_book orc fuel st2 rid1 ring2 G2 _ _ _ _ _ _ _ B0 Ef) as [B1 _].
-  destruct (cutKeyholes_ring orc fuel outers holes st2 rid1 ring2 simples st3 simples' G2 B1 E3)
+  destruct (init_ghost_full polys st1 starts Ei) as (rid1 & ring1 & G1 & R1 & Hmap & Hall & Hlen).
+  destruct (sweep_book fuel polys st1 starts rid1 ring1 st2 G1 R1 Hmap Hall E2) as (A1 & A2 & A3 & ring2 & G2 & B0).
+  destruct (findStarts_book orc _ _ fuel st2 rid1 ring2 G2 _ _ _ _ _ _ _ B0 Ef) as [B1 _].
+  destruct (cutKeyholes_ring orc _ _ fuel outers holes st2 rid1 ring2 simples st3 simples' G2 B1 E3)
     as (C1 & _ & _ & _ & rid3 & ring3 & G3 & B3).
-  destruct (triangulatePolys_ring fuel simples' st3 rid3 ring3 st G3) with (3 := E4) as (D1 & _ & _ & ring4 & G4 & Hsm).
-  { apply (B_simple _ _ _ _ _ _ _ B3). }
-  { intros k Hk. destruct (B_cover _ _ _ _ _ _ _ B3 k Hk) as [[]|[[]|Hin]]. exact Hin. }
-  split; [lia|]. apply (rings_closed_small st rid3 ring4 G4 Hsm).
+  destruct (triangulatePolys_ring_rc _ _ fuel simples' st3 rid3 ring3 st G3 (B_rc _ _ _ _ _ _ _ _ _ B3)) with (3 := E4)
+    as (D1 & D2 & D3 & ring4 & G4 & R4 & Hsm).
+  { apply (B_simple _ _ _ _ _ _ _ _ _ B3). }
+  { intros k Hk. destruct (B_cover _ _ _ _ _ _ _ _ _ B3 k Hk) as [[]|[[]|Hin]]. exact Hin. }
+  split; [lia|]. split; [apply (rings_closed_small st rid3 ring4 G4 Hsm)|].
+  intros Hbig. pose proof (RC_cnt _ _ _ _ _ R4 Hbig) as Hcnt.
+  split; [lia|].
+  rewrite (nlive_rings st rid3 ring4 (length polys) G4 (RC_lab _ _ _ _ _ R4)).
+  rewrite (sumlen_two ring4 (length polys) (RC_two _ _ _ _ _ R4 Hbig) Hsm). lia.
 Qed.
+
+Theorem triangulate_ghost fuel polys st :
+  triangulate orc fuel polys = Some st -> nbad st = 0 /\ rings_closed st = true.
+Proof. intros H. destruct (triangulate_ghost_count fuel polys st H) as (A & B & _). auto. Qed.
 
 (* earclip_chain, earclip_count, index validity: full statements *)
 Theorem earclip_contract_full fuel polys st :
@@ -1415,5 +1615,21 @@ Proof.
   intros H. destruct (triangulate_ghost fuel polys st H) as [Hz Hrc].
   destruct (earclip_contract_init orc fuel polys st H Hz) as (_ & A & B & C & D).
   split; [apply D; exact Hrc|]. auto.
+Qed.
+
+(* earclip_count: exactly V - 2 + 2h - 2(o-1) triangles (minus the filtered topological
+   degenerates), h = number of JoinPolygons calls (holes joined to an outer), o = the
+   remaining rings = #contours - h *)
+Theorem earclip_count_full fuel polys st :
+  triangulate orc fuel polys = Some st -> Forall (fun p : list Z => 2 <= length p) polys ->
+  let h := njoin st in let o := length polys - njoin st in
+  h <= length polys /\
+  (Z.of_nat (length (tris st)) + Z.of_nat (nfilt st) =
+   Z.of_nat (numVert polys) - 2 + 2 * Z.of_nat h - 2 * (Z.of_nat o - 1))%Z.
+Proof.
+  intros H Hbig. cbv zeta. destruct (triangulate_ghost_count fuel polys st H) as (Hz & _ & Hc).
+  destruct (Hc Hbig) as [Hj Hl].
+  destruct (earclip_contract_init orc fuel polys st H Hz) as (_ & _ & He & Hn & _).
+  split; [exact Hj|]. lia.
 Qed.
 End Final.
